@@ -26,7 +26,8 @@ MANIFEST = {
                   "relay-less nodes without bootstrap nodes after start_transport; manual (control-scheme) hints such as the bound control "
                   "host are outside the property and not constrained; the announce-endpoint fallback of broadcast_manifest (used only when "
                   "no endpoint at all is configured) is not observed by the harness; host names (non-numeric text) are only shown to pass "
-                  "the classifier, the property's numeric claim needs a numeric address; IPv4-compatible (::a.b.c.d), NAT64 and 6to4 forms "
+                  "the classifier (only literal addresses and `localhost` in any upper/lower-case spelling can be judged without a resolver; "
+                  "`localhost.`, `x.localhost`, `.local`, `.internal` are ordinary names for code and spec); IPv4-compatible (::a.b.c.d), NAT64 and 6to4 forms "
                   "are not in the property's list and are not required to be filtered.",
     "technique": "Lean 4 proof over a translated/transcribed model of the classification and publication logic + model/implementation differential correspondence with Lean monitor",
 }
@@ -141,6 +142,7 @@ def extract():
         gaps.append("mapped fall-through result not found")
     host = _function_body(text, r"bool\s+is_private_or_reserved_host\s*\([^)]*\)\s*\{") or ""
     names = re.findall(r'lowered\s*==\s*"([^"]*)"', host)
+    exact_names = re.findall(r'\bhost\s*==\s*"([^"]*)"', host)      # names compared before lower-casing (case-sensitive)
     if not names:
         gaps.append("reserved host names not found"); names = ["localhost", "0.0.0.0"]
     invalid = re.search(r'bool\s+is_valid_host[^{]*\{\s*return\s+!host\.empty\(\)\s*&&\s*host\s*!=\s*"([^"]*)"', text)
@@ -167,6 +169,8 @@ def extract():
     body.append("/-- result for a mapped-prefixed literal whose tail is not a dotted IPv4 address -/")
     body.append("def kMappedUnparsed : Bool := " + ("true" if (mapped_unparsed is None or mapped_unparsed.group(1) == "true") else "false"))
     body.append("def kReservedNames : List String := [" + ", ".join(lean_str(s) for s in names) + "]")
+    body.append("/-- names compared with the host text as given (`host == \"…\"`, case-sensitive); normally none -/")
+    body.append("def kReservedNamesExact : List String := [" + ", ".join(lean_str(s) for s in exact_names) + "]")
     body.append("def kInvalidHost : String := " + lean_str(invalid.group(1) if invalid else "0.0.0.0"))
     body.append("def kEchoPrefix : String := " + lean_str(echo.group(1) if echo else "198.51.100."))
     body.append(f"def kEchoLo : Nat := {rng.group(1) if rng else 20}")
@@ -329,6 +333,53 @@ def _host_tokens(rng):
     return "6:" + h6(rng.choice(v6_structured(rng)))
 
 
+LOOPBACK_SPELLINGS = ["localhost", "LOCALHOST", "LocalHost", "Localhost", "localHost", "lOCALHOST", "LOCALHOSt", "LoCaLhOsT"]
+OTHER_NAMES = ["localhost.", "LOCALHOST.", "a.localhost", "A.LocalHost", "host.local", "HOST.LOCAL", "node.internal", "Node.Internal",
+               "printer.lan", "localhos", "localhostx", "xlocalhost", "local host".replace(" ", "-"), "localhost:80", "node.example", "NODE.EXAMPLE",
+               "Example.COM", "example.com.", "0.0.0.0", "0.0.0.0.", "stun.l.google.com", "LOCALHOST%1", "[localhost]"]
+
+
+def _case_mix(rng, name):
+    return "".join(ch.upper() if rng.random() < 0.5 else ch.lower() for ch in name)
+
+
+def gen_names(ctx, n):
+    """host NAMES as control host / STUN-reported host, aimed at the local-fallback branch: allow_private=false and no
+    usable STUN/echo candidate (STUN failed/disabled, or it reported something the filter drops)."""
+    rng = ctx.rng
+    ops = []
+    spellings = LOOPBACK_SPELLINGS + OTHER_NAMES
+    for t in spellings:
+        ops.append((f"cls t:{t}", "names/classify"))
+    for _ in range(n):
+        ops.append((f"cls t:{_case_mix(rng, rng.choice(['localhost', 'localhost', 'localhost.', 'a.localhost', 'host.local', 'node.internal', 'node.example']))}", "names/classify"))
+
+    def name_tok():
+        r = rng.random()
+        if r < 0.45:
+            return "t:" + (rng.choice(LOOPBACK_SPELLINGS) if rng.random() < 0.5 else _case_mix(rng, "localhost"))
+        if r < 0.9:
+            return "t:" + (rng.choice(OTHER_NAMES) if rng.random() < 0.6 else _case_mix(rng, rng.choice(OTHER_NAMES)))
+        return "-"
+
+    def no_candidate_ext():
+        # external address that yields no stun/echo candidate when private advertising is not allowed
+        return rng.choice(["t:0.0.0.0", "-", "4:" + h4(_v4n("10.0.0.9")), "4:" + h4(_v4n("192.168.1.1")), "6:" + h6(_v6n("fe80::1")), name_tok()])
+
+    for _ in range(n):
+        priv = rng.choice("0001")
+        ok = rng.choice("01")
+        ext = no_candidate_ext() if rng.random() < 0.8 else "4:" + h4(_v4n("45.64.61.85"))
+        ops.append((f"bt {priv} {ok} {ext} {rng.choice([45050, 0])} {name_tok()} {rng.choice([47000, 47000, 1])}", "names/bt"))
+    for _ in range(max(8, n // 6)):
+        mode = rng.choice(["on", "on", "warn", "off"])
+        priv = rng.choice("0001")
+        stun = rng.choice(["fail", "fail", "off", "4:" + h4(_v4n("10.0.0.9")), "6:" + h6(_v6n("::ffff:10.0.0.1")), name_tok(), "4:" + h4(_v4n("45.64.61.85"))])
+        eps = "-" if rng.random() < 0.7 else "t:m.example|0|1"
+        ops.append((f"node {mode} {priv} {stun} {name_tok()} - - {eps}", f"names/node/{mode}/priv{priv}"))
+    return ops
+
+
 def gen_bt(ctx, n):
     rng = ctx.rng
     ops = []
@@ -385,6 +436,7 @@ def generate(ctx, budget):
     cls_ops = gen_classify(ctx, n_random=budget, exhaustive16=thorough)
     cases = _pack(cls_ops, 400 if thorough else 60)
     cases += _pack(gen_bt(ctx, budget // 2), 40)
+    cases += _pack(gen_names(ctx, max(120, budget // 8)), 12)
     cases += _pack(gen_node(ctx, max(40, budget // (12 if thorough else 25))), 6)
     ctx.rng.shuffle(cases)
     return cases
@@ -436,7 +488,9 @@ def spec() -> Spec:
              "hosts (thorough), random; IPv6: block boundaries +-1, IPv4-mapped forms of every IPv4 boundary and look-alikes (::fffe:, NAT64, "
              "IPv4-compatible), all 256 zero/non-zero group patterns, leading-group look-alikes (fc::, fe8::, ff::), random with many zero "
              "groups; text spellings (upper case, brackets, zone ids, non-canonical, malformed); build_transport_advertise_candidates on "
-             "hand-made NAT results; a real Node per `node` op (STUN override, all three modes, allow_private on/off, control host, manual and "
+             "hand-made NAT results; host NAMES (localhost in lower/UPPER/mixed case, trailing dot, .localhost/.local/.internal, other "
+             "names) as control host and as STUN-reported host with allow_private=false and no usable STUN/echo candidate (local-fallback "
+             "branch), judged by the clause `localhost in any case is loopback`; a real Node per `node` op (STUN override, all three modes, allow_private on/off, control host, manual and "
              "stale endpoints) observed at Config::advertised_endpoints and Manifest::discovery_hints; non-trivial = outputs of a case not all equal",
         trusted_base=["inet_ntop (glibc) as the definition of canonical text: fmt4/fmt6 are compared with it on every numeric case",
                       "std::isdigit/std::tolower in the \"C\" locale; std::unordered_set/std::string semantics",
